@@ -42,6 +42,10 @@ func runC12(r *an.Run) {
 	// given (not a resolved / rewritten one), so a second name for the same file cannot be written twice
 	c16AtomicReplace(r)
 	relabel(r, "R1-no-destructive-open", "R6-in-place-mode-replaces-the-file-that-was-read")
+	// a file no change applies to: every mode of the command leaves its bytes alone (C06-R1), so the library
+	// must hand back its input as it is — not a re-printed copy of it
+	c06APIReturnsSrc(r)
+	relabel(r, "R4-api-returns-src-unchanged", "R7-library-leaves-an-unmatched-file-as-the-command-does")
 }
 
 func c12NoMutationInDryRun(r *an.Run, m *runModel) {
